@@ -65,3 +65,10 @@ Theorem C10_cli_stage_seeds :
 Proof. exact cli_stage_seeds. Qed.
 Print Assumptions C10_cli_stage_seeds.
 
+
+Theorem C10_names_resolve_case_insensitively :
+  Datatypes.length gen_name_lookups = 28 /\ forallb (fun '(_, want, got) => (want =?
+    got)%string) gen_name_lookups = true.
+Proof. exact names_resolve_case_insensitively. Qed.
+Print Assumptions C10_names_resolve_case_insensitively.
+
